@@ -3,6 +3,7 @@ CONSTANTS
   WBITS = 5
   Bug_AtWraps = FALSE
   Bug_IntervalWraps = FALSE
+  Bug_GridScanGE = FALSE
   Bug_SplineOpLookupByPoint = FALSE
   Bug_IntReciprocal = FALSE
   TIER = "quick"
